@@ -33,8 +33,13 @@ func numOr(m M, key string, def float64) float64 {
 	if m == nil {
 		return def
 	}
-	if v, ok := m[key].(float64); ok {
+	switch v := m[key].(type) {
+	case float64:
 		return v
+	case int:
+		return float64(v)
+	case int64:
+		return float64(v)
 	}
 	return def
 }
@@ -478,6 +483,38 @@ func importanceOf(method string, s *dmpSnap) (map[string]float64, bool) {
 	return imp, true
 }
 
+// frontOfOrdering: for the deterministic orderings the selected criteria are exactly the first k of the ordering -
+// weakest = the listener's ascending importance ranking (as observed by the decorator), strongest = its exact reverse
+func frontOfOrdering(e *biasEvent, selected []string) string {
+	ord := strOr(e.Props, "ordering", "")
+	if ord != "" && ord != "weakest" && ord != "strongest" {
+		return ""
+	}
+	ranks := findCalls(e, "rank")
+	if len(ranks) != 1 {
+		return ""
+	}
+	order := append([]string{}, ranks[0].Ranked...)
+	if ord == "strongest" {
+		for i, j := 0, len(order)-1; i < j; i, j = i+1, j-1 {
+			order[i], order[j] = order[j], order[i]
+		}
+	}
+	if len(selected) > len(order) {
+		return fmt.Sprintf("%d criteria selected from an ordering of %d", len(selected), len(order))
+	}
+	for i, id := range selected {
+		if order[i] != id {
+			name := "weakest (ascending importance)"
+			if ord == "strongest" {
+				name = "strongest (exact reverse of the ascending importance ranking)"
+			}
+			return fmt.Sprintf("selected %v, but the front of the ordering %s is %v", selected, name, order[:len(selected)])
+		}
+	}
+	return ""
+}
+
 // ---------------------------------------------------------------------------------------------
 // C15 omission event
 
@@ -551,6 +588,10 @@ func checkOmission(method string, e *biasEvent, st *eventStats) []issue {
 				}
 			}
 		}
+	}
+	if msg := frontOfOrdering(e, omitted); msg != "" {
+		add("omission-ordering-front", msg)
+		return is
 	}
 	st.add("omission_events", 1)
 	if k > 0 {
@@ -685,6 +726,15 @@ func checkReversal(method string, e *biasEvent, st *eventStats) []issue {
 			add("reversal-other-values", "alternative "+a.Id+" gained or lost values")
 			return is
 		}
+	}
+	var selList []string
+	for _, r := range rl {
+		rm, _ := r.(map[string]interface{})
+		selList = append(selList, strOr(rm, "id", ""))
+	}
+	if msg := frontOfOrdering(e, selList); msg != "" {
+		add("reversal-ordering-front", msg)
+		return is
 	}
 	st.add("reversal_events", 1)
 	if k > 0 {
